@@ -546,6 +546,30 @@ macro_rules! poly_family {
         $o.emit(json!({"k": "poly", "op": "cross", "f": $fm, "ty": stringify!($V3), "a": wv(&a3), "b": wv(&b3), "got": wv(&$V3::from_slice(&a3).cross($V3::from_slice(&b3)).to_array())}));
         $o.emit(json!({"k": "poly", "op": "dot", "f": $fm, "ty": stringify!($V4), "a": wv(&a4), "b": wv(&b4), "got": w($V4::from_slice(&a4).dot($V4::from_slice(&b4)))}));
         $o.emit(json!({"k": "poly", "op": "dot", "f": $fm, "ty": stringify!($V4), "sp": "length_squared", "a": wv(&a4), "b": wv(&a4), "got": w($V4::from_slice(&a4).length_squared())}));
+        // lerp / midpoint / distance_squared / reflect / project / reject (normalised second operand) as polynomials of the operand lanes
+        {
+            let tt: $S = <$S>::from_bits(rnd_mod($r, is32) as _);
+            macro_rules! vec_polys {
+                ($V:ident, $a:ident, $b:ident) => {{
+                    let (va, vb) = ($V::from_slice(&$a), $V::from_slice(&$b));
+                    let ty = stringify!($V);
+                    $o.emit(json!({"k": "poly", "op": "lerp", "f": $fm, "ty": ty, "a": wv(&$a), "b": wv(&$b), "t": w(tt), "got": wv(&va.lerp(vb, tt).to_array())}));
+                    $o.emit(json!({"k": "poly", "op": "midpoint", "f": $fm, "ty": ty, "a": wv(&$a), "b": wv(&$b), "got": wv(&va.midpoint(vb).to_array())}));
+                    $o.emit(json!({"k": "poly", "op": "distance_squared", "f": $fm, "ty": ty, "a": wv(&$a), "b": wv(&$b), "got": w(va.distance_squared(vb))}));
+                    let nb = vb.normalize();
+                    if nb.is_finite() {
+                        let nl = nb.to_array();
+                        $o.emit(json!({"k": "poly", "op": "reflect", "f": $fm, "ty": ty, "a": wv(&$a), "b": wv(&nl), "got": wv(&va.reflect(nb).to_array())}));
+                        $o.emit(json!({"k": "poly", "op": "project_onto_normalized", "f": $fm, "ty": ty, "a": wv(&$a), "b": wv(&nl), "got": wv(&va.project_onto_normalized(nb).to_array())}));
+                        $o.emit(json!({"k": "poly", "op": "reject_from_normalized", "f": $fm, "ty": ty, "a": wv(&$a), "b": wv(&nl), "got": wv(&va.reject_from_normalized(nb).to_array())}));
+                    }
+                }};
+            }
+            vec_polys!($V2, a2, b2);
+            vec_polys!($V3, a3, b3);
+            vec_polys!($V4, a4, b4);
+            $( vec_polys!($V3x, a3, b3); )*
+        }
         $(
             $o.emit(json!({"k": "poly", "op": "dot", "f": $fm, "ty": stringify!($V3x), "a": wv(&a3), "b": wv(&b3), "got": w($V3x::from_slice(&a3).dot($V3x::from_slice(&b3)))}));
             $o.emit(json!({"k": "poly", "op": "cross", "f": $fm, "ty": stringify!($V3x), "a": wv(&a3), "b": wv(&b3), "got": wv(&$V3x::from_slice(&a3).cross($V3x::from_slice(&b3)).to_array())}));
@@ -773,6 +797,17 @@ macro_rules! rel_vec {
             $o.emit(json!({"k": "rel", "op": "normalize", "f": $fm, "ty": ty, "sp": "normalize_and_length", "v": wv(&v), "got": wv(&v.normalize_and_length().0)}));
         }
         }
+        // ---- square roots and quotients through the relations they satisfy
+        {
+            let (a, b) = (rv($r), rv($r));
+            if a.length_squared() > 0.0 && b.length_squared() > 0.0 && a.length_squared().is_finite() && b.length_squared().is_finite() {
+                $o.emit(json!({"k": "rel", "op": "length", "f": $fm, "ty": ty, "a": wv(&a), "got": w(a.length())}));
+                $o.emit(json!({"k": "rel", "op": "length_recip", "f": $fm, "ty": ty, "a": wv(&a), "got": w(a.length_recip())}));
+                $o.emit(json!({"k": "rel", "op": "distance", "f": $fm, "ty": ty, "a": wv(&a), "b": wv(&b), "got": w(a.distance(b))}));
+                $o.emit(json!({"k": "rel", "op": "project_onto", "f": $fm, "ty": ty, "a": wv(&a), "b": wv(&b), "got": wv(&a.project_onto(b))}));
+                $o.emit(json!({"k": "rel", "op": "reject_from", "f": $fm, "ty": ty, "a": wv(&a), "b": wv(&b), "got": wv(&a.reject_from(b))}));
+            }
+        }
         // ---- move_towards
         let a = ro($r);
         let dir = ro($r);
@@ -807,6 +842,26 @@ macro_rules! rel_vec {
             }
         }
     }};
+    (@vslerp $o:ident, $r:ident, $V:ident, $S:ident, $fm:expr, $w:ident, $wv:ident, $ro:ident, $ty:ident) => {{
+        // vector slerp at j/8 between directions 0.05 .. 2.8 rad apart with different lengths
+        let a0 = $ro($r);
+        let side = $ro($r);
+        if a0.length() > 0.2 {
+            let ah0 = a0.normalize();
+            let sp = side - ah0 * side.dot(ah0);
+            if sp.length() > 0.1 {
+                let ph = sp.normalize();
+                let ang: $S = [0.05, 0.3, 1.0, 2.0, 2.8, 1.5][$r.below(6) as usize];
+                let a = ah0 * (0.5 + (unit_f64($r) * 3.5) as $S);
+                let b = (ah0 * ang.cos() + ph * ang.sin()) * (0.5 + (unit_f64($r) * 3.5) as $S);
+                let rs: Vec<$V> = (0..=8).map(|j| a.slerp(b, j as $S / 8.0)).collect();
+                $o.emit(json!({"k": "rel", "op": "vslerp8", "f": $fm, "ty": $ty, "a": $wv(&a), "b": $wv(&b), "ah": $wv(&a.normalize()), "bh": $wv(&b.normalize()),
+                    "la": $w(a.length()), "lb": $w(b.length()),
+                    "r": rs.iter().map(|x| $wv(x)).collect::<Vec<_>>(), "d": rs.iter().map(|x| $wv(&x.normalize())).collect::<Vec<_>>(),
+                    "l": rs.iter().map(|x| $w(x.length())).collect::<Vec<_>>()}));
+            }
+        }
+    }};
     (@rot norot, $o:ident, $r:ident, $V:ident, $S:ident, $n:expr, $is32:ident, $fm:expr, $w:ident, $wv:ident, $ro:ident, $ty:ident) => {};
     (@rot rot, $o:ident, $r:ident, $V:ident, $S:ident, $n:expr, $is32:ident, $fm:expr, $w:ident, $wv:ident, $ro:ident, $ty:ident) => {{
         // ---- angle between parallel / anti-parallel dense vectors, and rotate_towards beyond the remaining angle
@@ -824,6 +879,7 @@ macro_rules! rel_vec {
                 $o.emit(json!({"k": "rel", "op": "rot_reach", "f": $fm, "ty": $ty, "quat": 0, "sp": "general target", "a": $wv(&a), "b": $wv(&b), "got": $wv(&a.rotate_towards(b, 4.0))}));
             }
         }
+        rel_vec!(@vslerp $o, $r, $V, $S, $fm, $w, $wv, $ro, $ty);
     }};
 }
 macro_rules! rel_quat {
